@@ -47,6 +47,10 @@ Some(x) == [has |-> TRUE, v |-> x]
 (*   mm       WithMoreUpdateMask, applied after WithUpdateMask: added to   *)
 (*            a non-nil update mask, ignored when there is none (nil means *)
 (*            "all fields" already)                                        *)
+(*   W        the resource's writable fields (WithWritableFields; part of  *)
+(*            the record because every write is judged against it)         *)
+(*   mw, aw   WithMoreWritableFields (added to a non-nil W, ignored when   *)
+(*            every field is writable already), WithAllFieldsWritable      *)
 (*   ev       expected value  [has, v]                                     *)
 (*   chk      0 none; 1 = "stored i must be >= 1", else PermissionDenied   *)
 (*   xa, cia  expect-absent, create-if-absent                              *)
@@ -74,7 +78,16 @@ SetToSeq(S) == IF S = {} THEN <<>> ELSE LET x == CHOOSE y \in S : TRUE IN <<x>> 
 EffM(o) == IF o.M.nil \/ o.mm.nil THEN o.M
            ELSE Mask(SetToSeq(NormSet(PathSet(o.M) \cup PathSet(o.mm))))
 
+\* the writable fields a write is judged against
+EffW(o) == IF o.aw \/ o.W.nil THEN NilMask
+           ELSE Mask(SetToSeq(NormSet(PathSet(o.W) \cup PathSet(o.mw))))
+
+\* An update mask naming a read-only field is rejected; one naming a parent of writable
+\* fields is settled by neither C01 nor C05 ("Unsettled": the trace use accepts a
+\* rejection that changes nothing and otherwise leaves the line unjudged).
 MaskErr(o) == IF ~o.M.nil /\ ~MaskValid(EffM(o)) THEN "InvalidArgument"
+              ELSE IF ~o.M.nil /\ (\E p \in PathSet(EffM(o)) : ClearlyReadOnly(p, EffW(o))) THEN "InvalidArgument"
+              ELSE IF ~o.M.nil /\ (\E p \in PathSet(EffM(o)) : ~ClearlyWritable(p, EffW(o))) THEN "Unsettled"
               ELSE IF ~o.R.nil /\ ~MaskValid(o.R) THEN "Internal" ELSE "OK"
 
 \* precondition + merge on an existing (or freshly created empty) message
@@ -83,7 +96,7 @@ Change(o, oldmsg, wr) ==
   IF o.ev.has /\ o.ev.v # oldmsg THEN [err |-> "FailedPrecondition", new |-> oldmsg]
   ELSE IF CheckErr(o.chk, oldmsg) # "OK" THEN [err |-> CheckErr(o.chk, oldmsg), new |-> oldmsg]
   ELSE LET w2 == Before(o, oldmsg, wr)
-           merged == UpdateResult(oldmsg, w2, EffM(o), NilMask, o.R)
+           merged == UpdateResult(oldmsg, w2, EffM(o), EffW(o), o.R)
        IN [err |-> "OK", new |-> After(o, oldmsg, merged)]
 
 WriteTime(o, now) == IF o.wt >= 0 THEN o.wt ELSE now
